@@ -651,7 +651,16 @@ def _put_one_ImportFrom_level(
 
         assert not child
 
-        self._put_src('.' * value, start_ln, start_col, ln, col, False)
+        dots = '.' * value
+
+        if (not value
+            and start_ln == self.ln
+            and start_col == self.col + 4
+            and not lines[ln][col : col + 1].isspace()
+        ):  # 'from.mod' -> 'from mod', the dots were all that separated the module name from the 'from'
+            dots = ' '
+
+        self._put_src(dots, start_ln, start_col, ln, col, False)
 
         ast.level = value
 
